@@ -946,12 +946,12 @@ class Context(MetadataContextMixin, object):
                 reg = self.state_types_registry()
                 t = reg.get(type(data))
                 try:
-                    if state.metadata.get("extension") is None:
-                        b, mime, typeid = encode_state_data(data)
-                    else:
-                        b, mime, typeid = encode_state_data(
-                            data, extension=state.metadata["extension"]
-                        )
+                    # the format is that of the key the data is stored under (as for a filename in the query)
+                    name = self.store_key.split("/")[-1]
+                    extension = state.metadata.get("extension")
+                    if "." in name:
+                        extension = ".".join(name.split(".")[1:])
+                    b, mime, typeid = encode_state_data(data, extension=extension)
                     store.store(self.store_key, b, metadata)
                 except:
                     traceback.print_exc()
